@@ -55,9 +55,12 @@ func selftestDeterminism(args []string) int {
 		}
 		flavours := []string{"plain", "race"}
 		if plan.Engine == "curlsim" {
-			flavours = []string{"plain", "race", "purego"}
+			flavours = []string{"plain", "race", "purego", "racepurego"}
 		}
 		if prop == "C13" {
+			flavours = []string{"plain", "race", "auto", "386"}
+		}
+		if prop == "C11" || prop == "C12" {
 			flavours = []string{"plain", "race", "auto"}
 		}
 		type job struct {
@@ -73,11 +76,14 @@ func selftestDeterminism(args []string) int {
 					if f == "race" {
 						n = nRace
 					}
-					if f == "purego" && rep > 0 {
+					if (f == "purego" || f == "racepurego") && rep > 0 {
 						continue
 					}
-					if f == "auto" {
+					if f == "auto" || f == "386" {
 						n = nPlain / 2
+					}
+					if f == "racepurego" {
+						n = nRace / 2
 					}
 					jobs = append(jobs, job{f, g, n})
 				}
@@ -130,13 +136,11 @@ func selftestDeterminism(args []string) int {
 			}
 			for run, rec := range results[i] {
 				ref := results[0][run]
-				if j.flavour == "purego" {
-					continue // different build configuration of the system under test; compared with itself only
-				}
-				if j.flavour == "auto" {
-					// more yield points than the plain build: compared with the first auto job
+				if j.flavour == "auto" || j.flavour == "386" || j.flavour == "purego" || j.flavour == "racepurego" {
+					// another build configuration of the system under test (more yield points, 32 lanes, portable
+					// permutation): compared with the first job of the same flavour
 					for k, jk := range jobs {
-						if jk.flavour == "auto" {
+						if jk.flavour == j.flavour {
 							ref = results[k][run]
 							break
 						}
